@@ -41,33 +41,44 @@ def extract(exe):
             k.setdefault("MoEmpty", e["mo"])
     if len(k) != 4:
         raise vlib.Infra(f"could not observe the four atomic accesses of the exit/reclaim protocol: {k}")
+    # the unbounded queue's link: next.store in _handle_full_queue, next.load in empty()
+    evs = run(exe, "init cap=64 unbounded\nP write\nB read 0\nP grow\nP exit\nB check 0 0 0\nend\n")
+    for e in evs:
+        if e["e"] == "acc" and e["obj"] == "N":
+            k.setdefault("MoNext" if e["op"] == "store" else "MoNextEmpty", e["mo"])
+    if len(k) != 6:
+        raise vlib.Infra(f"could not observe the accesses of the unbounded queue's next pointer: {k}")
     return k
 
 
-def cfg_text(k, recs, export):
-    return ("SPECIFICATION Spec\nCONSTANTS MaxRecs = %d\n MoCommit = \"%s\"\n MoInv = \"%s\"\n MoIsValid = \"%s\"\n MoEmpty = \"%s\"\n Export = %s\n"
+def cfg_text(k, recs, export, unbounded=False):
+    return ("SPECIFICATION Spec\nCONSTANTS MaxRecs = %d\n MoCommit = \"%s\"\n MoInv = \"%s\"\n MoIsValid = \"%s\"\n MoEmpty = \"%s\"\n"
+            " Unbounded = %s\n MoNext = \"%s\"\n MoNextEmpty = \"%s\"\n Export = %s\n"
             "INVARIANTS NoLoss TypeOK\nVIEW StateView\n%sCHECK_DEADLOCK FALSE\n"
-            % (recs, k["MoCommit"], k["MoInv"], k["MoIsValid"], k["MoEmpty"], "TRUE" if export else "FALSE",
+            % (recs, k["MoCommit"], k["MoInv"], k["MoIsValid"], k["MoEmpty"], "TRUE" if unbounded else "FALSE",
+               k.get("MoNext", "rel"), k.get("MoNextEmpty", "rlx"), "TRUE" if export else "FALSE",
                "ACTION_CONSTRAINT ExportA\n" if export else ""))
 
 
-def script_of(beh):
-    L = ["init cap=64"]
+def script_of(beh, unbounded=False):
+    L = ["init cap=64" + (" unbounded" if unbounded else "")]
     for h in beh:
         if h["a"] == "write":
             L.append("P write")
+        elif h["a"] == "grow":
+            L.append("P grow")
         elif h["a"] == "exit":
             L.append("P exit")
         elif h["a"] == "read":
             L.append(f"B read {h['arg'][0]}")
         elif h["a"] == "check":
-            L.append(f"B check {h['arg'][0]} {h['arg'][1]}")
+            L.append("B check " + " ".join(str(x) for x in h["arg"]))
     return "\n".join(L) + "\nend\n"
 
 
 def compare(beh, evs):
     """which message every chosen load read, and the outcome of every check, model vs code"""
-    outs = [e for e in evs if e["e"] in ("committed", "exited", "read", "check")]
+    outs = [e for e in evs if e["e"] in ("committed", "exited", "read", "check")]   # (grow = one committed record)
     if len(outs) < len(beh):
         return f"harness ran {len(outs)} of {len(beh)} steps"
     if evs and evs[-1].get("badchoice"):
@@ -107,16 +118,16 @@ def run_for(ck):
     exe = build()
     k = extract(exe)
     ck.extra["exit_protocol_memory_orders_from_code"] = k
-    for recs in ([2] if quick else [2, 3, 4]):
-        label = f"exit-{recs}"
-        cfg = vlib.write_cfg(vlib.BUILD / "cfg" / f"ExitRA_{label}.cfg", cfg_text(k, recs, True))
+    for recs, unb in ([(2, False), (2, True)] if quick else [(2, False), (3, False), (4, False), (2, True), (3, True)]):
+        label = f"exit-{'u' if unb else 'b'}{recs}"
+        cfg = vlib.write_cfg(vlib.BUILD / "cfg" / f"ExitRA_{label}.cfg", cfg_text(k, recs, True, unb))
         r = vlib.tlc("ExitRA", cfg, timeout=900, coverage=quick)
         if r.error:
             raise vlib.Infra(r.error)
         ck.add_tlc(r, f"ExitRA {label}")
         if r.violated:
             beh = r.trace[-1]["hist"]
-            sc = script_of(beh)
+            sc = script_of(beh, unb)
             evs = run(exe, sc)
             rej = validate(ck, [("cex", sc, evs)], label)
             ck.extra.setdefault("model_counterexamples", []).append({"config": label, "invariant": r.violated})
@@ -129,14 +140,14 @@ def run_for(ck):
                 ck.drifted(f"ExitRA violates {r.violated} with the code's memory orders {k} but the real objects pass on that schedule")
             continue
         if quick:
-            for a in ("PWrite", "PExit"):
+            for a in ("PWrite", "PExit") + (("PGrow", "PWrite2") if unb else ()):
                 if not vlib.enabled(r, a):
                     raise vlib.Infra(f"vacuity: {a} never enabled in ExitRA {label}")
         behs = vlib.behaviours(r)
         if not behs:
             raise vlib.Infra("ExitRA exported no behaviours")
         with ThreadPoolExecutor(max_workers=vlib.NCPU) as ex:
-            res = list(ex.map(lambda b: run(exe, script_of(b)), behs))
+            res = list(ex.map(lambda b: run(exe, script_of(b, unb)), behs))
         execs, ndrift = [], 0
         for i, (b, evs) in enumerate(zip(behs, res)):
             d = compare(b, evs)
@@ -144,7 +155,7 @@ def run_for(ck):
                 ndrift += 1
                 if ndrift <= 3:
                     ck.drifted(f"ExitRA {label}: {d}")
-            execs.append((f"{label}-{i}", script_of(b), evs))
+            execs.append((f"{label}-{i}", script_of(b, unb), evs))
             ck.case(("exitra", label, i), nontrivial=any(e["e"] == "reclaim" for e in evs))
         rej = validate(ck, execs, label)
         ck.traces_validated += len(execs) - len(rej)
